@@ -1,3 +1,4 @@
+import Rpcx.Model.Atomic
 import Rpcx.Lemmas.MuxInv
 import Rpcx.Props.C03
 /-
@@ -189,5 +190,14 @@ def ctxDonePrefix (s : St) (cell : Nat) : St :=
 theorem d11_witness :
     let s := run (init [false, false]) [.register 0, .writeOk 0]     -- the victim owns seq 0; call 1 is not registered
     ((ctxDonePrefix s 0).calls[0]?.map (·.outcome)) = some (some .ctxErr) := by decide
+
+/-! ### the model's atomic steps are the code's critical sections (regenerated facts) -/
+
+theorem tie_atomic : Gen.atomicTieOk = true := by decide
+
+/-- a cancelled blocking call looks its own entry up and removes it under one acquisition of the
+    client mutex (`ctxDone` in the model) -/
+theorem tie_cancel_atomic :
+    Atomic.sameRegion .clientCall .clientMutex [.getPending, .deletePending] = true := by decide
 
 end Rpcx.Props.C06
